@@ -1,6 +1,8 @@
 package main
 
 import (
+	"strings"
+	"os"
 	"bytes"
 	"encoding/json"
 	"fmt"
@@ -161,12 +163,17 @@ func runC10(idx int, rng *rand.Rand, tier string) []Case {
 		case 3:
 			closeEvery = 2 + rng.Intn(7)
 		}
-		out = append(out, c10Case(rs, order, closeEvery, name))
+		out = append(out, c10Case(rs, order, closeEvery, name, false, idx))
+	}
+	if len(rs) > 0 && len(rs) <= 3000 && idx%3 == 0 {
+		// the report command on a gob file holding the same results in a shuffled order
+		order := rng.Perm(len(rs))
+		out = append(out, c10Case(rs, order, 0, "cli", true, idx))
 	}
 	return out
 }
 
-func c10Case(rs []c10res, order []int, closeEvery int, name string) Case {
+func c10Case(rs []c10res, order []int, closeEvery int, name string, cli bool, idx int) Case {
 	var c Case
 	w := &c.W
 	w.Z(1)
@@ -189,23 +196,50 @@ func c10Case(rs []c10res, order []int, closeEvery int, name string) Case {
 		}
 	}
 	w.I(len(ops))
+	// the text reporter is created once and used after every Close, like `report -every` does
+	txt := vegeta.NewTextReporter(&m)
+	var txtOut bytes.Buffer
+	var gobBuf bytes.Buffer
+	genc := vegeta.NewEncoder(&gobBuf)
 	for _, o := range ops {
 		if o.close {
 			w.Z(0)
 			m.Close()
+			txtOut.Reset()
+			txt.Report(&txtOut)
 			continue
 		}
 		r := o.r
 		w.Z(1)
 		w.Z(int64(r.code)); w.Z(r.ts); w.Z(r.lat); w.U(r.bout); w.U(r.bin); w.I(r.err)
-		m.Add(&vegeta.Result{Code: r.code, Timestamp: time.Unix(0, r.ts), Latency: time.Duration(r.lat),
-			BytesOut: r.bout, BytesIn: r.bin, Error: c10errs[r.err]})
+		res := vegeta.Result{Code: r.code, Timestamp: time.Unix(0, r.ts), Latency: time.Duration(r.lat),
+			BytesOut: r.bout, BytesIn: r.bin, Error: c10errs[r.err]}
+		if cli {
+			genc.Encode(&res)
+		} else {
+			m.Add(&res)
+		}
 	}
-	m.Close()
 	var buf bytes.Buffer
 	var rep c10report
-	if err := vegeta.NewJSONReporter(&m).Report(&buf); err != nil {
-		panic(err)
+	if cli {
+		f := writeTemp(idx, "c10.gob", gobBuf.Bytes())
+		defer os.Remove(f)
+		out, err := runCLI(nil, "report", "-type", "json", f)
+		if err != nil {
+			panic(fmt.Sprintf("report command failed on a well-formed gob file: %v", err))
+		}
+		buf.Write(out)
+		tout, _ := runCLI(nil, "report", "-type", "text", f)
+		txtOut.Reset()
+		txtOut.Write(tout)
+	} else {
+		m.Close()
+		if err := vegeta.NewJSONReporter(&m).Report(&buf); err != nil {
+			panic(err)
+		}
+		txtOut.Reset()
+		txt.Report(&txtOut)
 	}
 	if err := json.Unmarshal(buf.Bytes(), &rep); err != nil {
 		panic(err)
@@ -248,6 +282,25 @@ func c10Case(rs []c10res, order []int, closeEvery int, name string) Case {
 	w.F(rep.Success)
 	w.F(rep.BytesIn.Mean)
 	w.F(rep.BytesOut.Mean)
+	// the status-code list of the text report, as printed
+	var tcodes [][2]int
+	for _, line := range strings.Split(txtOut.String(), "\n") {
+		if strings.HasPrefix(line, "Status Codes") {
+			for _, f := range strings.Fields(line) {
+				if i := strings.IndexByte(f, ':'); i > 0 {
+					c, e1 := strconv.Atoi(f[:i])
+					n, e2 := strconv.Atoi(f[i+1:])
+					if e1 == nil && e2 == nil {
+						tcodes = append(tcodes, [2]int{c, n})
+					}
+				}
+			}
+		}
+	}
+	w.I(len(tcodes))
+	for _, x := range tcodes {
+		w.I(x[0]); w.I(x[1])
+	}
 	c.Tag = name
 	zeroLat := false
 	for _, r := range rs {
